@@ -1209,32 +1209,26 @@ class C11(Prop):
         return reopened or held_gap
 
     def monitor(self, stream, annot, impl):
+        # the dataset of the case: symbol -> [(date, bid, ask)] in insertion order
         ds = {}
         for op in annot:
-            t = op.split()
-            if t[0] == "RESET":
-                ds = {}
-            if t[0] == "Q":
-                for j in range(int(t[3])):
-                    ds.setdefault(t[4 + 3 * j], []).append((int(t[2]), t[5 + 3 * j], t[6 + 3 * j]))
-            if t[0] == "BUILD":
-                break
-        # (datasets are per case; recompute inside the loop below)
-        ds = {}
-        for k, (op, out) in enumerate(zip(annot, impl)):
             t = op.split(" @ ")[0].split()
-            if t[0] == "RESET":
-                ds = {}
             if t[0] == "Q":
                 for j in range(int(t[3])):
                     ds.setdefault(t[4 + 3 * j], []).append((int(t[2]), t[5 + 3 * j], t[6 + 3 * j]))
+        increasing = all([d for d, _, _ in v] == sorted({d for d, _, _ in v}) for v in ds.values())
         for k, t, costs, prev, cur in walk_broker(annot, impl):
             tot = fr(cur.cash)
             for sym, p in cur.per.items():
                 held = cur.hold.get(sym)
-                # last seen quote = latest quote dated at or before the clock
-                if sym in ds and False:
-                    pass
+                # last seen quote = the most recent quote published for the symbol up to the current clock
+                # (a gap keeps the previous one, never a later one)
+                if increasing:
+                    seen = [(d, b, a) for (d, b, a) in ds.get(sym, []) if d <= cur.date]
+                    want_q = (seen[-1][1], seen[-1][2]) if seen else ("-", "-")
+                    if (p["bid"], p["ask"]) != want_q:
+                        yield (k, "valued-at-most-recent-quote-up-to-the-clock", f"{sym} at clock {cur.date}: broker's quote {(p['bid'], p['ask'])}, most recent published up to the clock {want_q}")
+                        return
                 if held is not None and p["bid"] != "-":
                     if p["pv"] == "-" or fdec(p["pv"]) != fdec(p["bid"]) * fdec(held):
                         yield (k, "position-value-is-qty-times-last-bid", f"{sym}: value {p['pv']}, bid {fdec(p['bid'])}, qty {fdec(held)}")
@@ -1659,11 +1653,13 @@ class C16(Prop):
                 net, deposited_any, last_date, hl = Fraction(0), False, None, 0
                 prev_ready, pos_prev, tv_nonzero, tv_prev = True, 0, False, 0.0
                 continue
-            if out in ("dead", "ok") or "K" not in s and out != "PANIC":
+            if out in ("dead", "ok") or "K" not in s and "PANIC" not in s:
                 continue
-            if out == "PANIC":
-                if t[0] in ("RUNREST", "UPDATE") and tv_nonzero:
-                    yield (k, "loop-terminates-without-panic", f"{t[0]} panicked although the portfolio value was {tv_prev}")
+            if "PANIC" in s:
+                # the only panic the code documents on this path is "trade a portfolio with zero value"
+                # (liquidation value exactly 0 when the target-weight diff runs); anything else is a violation
+                if t[0] in ("RUNREST", "UPDATE") and s.get("LVZ") != ["true"]:
+                    yield (k, "loop-terminates-without-panic", f"{t[0]} panicked although the liquidation value was not zero (value before: {tv_prev})")
                     return
                 continue
             ready = s["S"] == ["Ready"]
